@@ -485,6 +485,13 @@ func (e *SpecEnv) call(n *SCall) Val {
 		}
 		dom, _, ks, _ := x.u.mapKeys(mt)
 		return Val{T: "(select " + x.getHeap(e.st, dom) + " " + m.T + ")", S: "(Array " + ks + " Bool)"}
+	case "ghostCount":
+		// number of calls made so far to a library function that the model counts
+		k := "count:" + specSrc(n.Args[0])
+		if g, ok := e.st.ghost[k]; ok {
+			return g
+		}
+		return Val{T: "0", S: "Int"}
 	case "marked":
 		gk := "ghost.mark." + specSrc(n.Args[0])
 		x.u.regHeap(gk, "(Array Int Bool)")
@@ -495,17 +502,16 @@ func (e *SpecEnv) call(n *SCall) Val {
 		return Val{T: "(select " + x.getHeap(e.st, x.bigKey()) + " " + r.T + ")", S: "Int"}
 	case "nsent":
 		c := e.Eval(n.Args[0])
-		return Val{T: "(select " + x.getHeap(e.st, x.nsentKey(x.chanElemSort(c.Ty))) + " " + c.T + ")", S: "Int"}
+		nk, _, _ := x.chanKeys(chanElem(c.Ty))
+		return Val{T: "(select " + x.getHeap(e.st, nk) + " " + c.T + ")", S: "Int"}
 	case "lastsent":
 		c := e.Eval(n.Args[0])
-		ct, ok := c.Ty.Underlying().(*types.Chan)
-		if !ok {
+		el := chanElem(c.Ty)
+		if el == nil {
 			specFail("lastsent of non-chan")
 		}
-		es := x.u.sortOf(ct.Elem())
-		key := "chan.last." + sortId(es)
-		x.u.regHeap(key, "(Array Int "+es+")")
-		return Val{T: "(select " + x.getHeap(e.st, key) + " " + c.T + ")", S: es, Ty: ct.Elem()}
+		_, lk, es := x.chanKeys(el)
+		return Val{T: "(select " + x.getHeap(e.st, lk) + " " + c.T + ")", S: es, Ty: el}
 	}
 	if m := reFixedFn.FindStringSubmatch(n.Fun); m != nil {
 		var nn int64
@@ -901,10 +907,9 @@ func (x *Exec) placeKeys(pkg *packages.Package, place string) []string {
 	}
 	if strings.HasPrefix(place, "chan:") {
 		// channels carrying the given element type
-		_, es := x.resolveTypeName(pkg, strings.TrimPrefix(place, "chan:"))
-		lk := "chan.last." + sortId(es)
-		x.u.regHeap(lk, "(Array Int "+es+")")
-		return []string{x.nsentKey(es), lk}
+		et, _ := x.resolveTypeName(pkg, strings.TrimPrefix(place, "chan:"))
+		nk, lk, _ := x.chanKeys(et)
+		return []string{nk, lk}
 	}
 	if place == "chan" {
 		var ks []string
